@@ -22,6 +22,7 @@ import (
 	"aaverif/aadet"
 	"aaverif/internal/gen"
 	"aaverif/internal/netx"
+	"aaverif/internal/tcpx"
 
 	"github.com/brewlin/net-protocol/pkg/waiter"
 	tcpip "github.com/brewlin/net-protocol/protocol"
@@ -627,6 +628,38 @@ func (w *world) oddListen(out *bufio.Writer, kinds map[string]int) {
 	fmt.Fprintf(out, "CListen %s %s %s\n", coqSeg(t), coqFrames(w.frames()), netx.B(err == nil))
 }
 
+// established connection + RST: never answered (finding F16, repaired)
+func estRst(r *gen.Rng, out *bufio.Writer, kinds map[string]int) {
+	cfg := tcpx.Cfg{PeerWnd: 30000, PeerWS: -1, PeerMSS: 100}
+	cfg.ISS, cfg.IRS = seqChoices[r.Intn(len(seqChoices))], seqChoices[r.Intn(len(seqChoices))]
+	c, err := tcpx.Dial(cfg)
+	if err != nil {
+		fmt.Fprintf(out, "# estRst: dial failed: %v\n", err)
+		return
+	}
+	defer c.EP.Close()
+	inw := r.Bool()
+	seq := c.IRS + 1 + uint32(r.Intn(1000))
+	if !inw {
+		seq = c.IRS + 1 + 0x40000000
+	}
+	fl := byte(netx.FlagRst)
+	if r.Bool() {
+		fl |= netx.FlagAck
+	}
+	if inw {
+		kinds["e-rst-in-window"]++
+	} else {
+		kinds["e-rst-out-of-window"]++
+	}
+	t := netx.TCPSeg{Seq: seq, Ack: c.ISS + 1, Flags: fl}
+	c.InjectRaw(t)
+	c.Sync(3 * time.Second)
+	fr := c.Frames()
+	st := c.Snap()
+	fmt.Fprintf(out, "CEstRst %s %s %s %d\n", netx.B(inw), coqSeg(t), coqFrames(fr), st.EState)
+}
+
 func main() {
 	log.SetOutput(io.Discard)
 	seed := flag.Uint64("seed", 1, "seed")
@@ -652,6 +685,7 @@ func main() {
 			}
 		default:
 			w.oddListen(out, kinds)
+			estRst(r, out, kinds)
 		}
 	}
 	fmt.Fprintf(out, "# event kinds: %v\n", kinds)
